@@ -1,5 +1,6 @@
 // implementation of the container driver (included by the cont_*.cpp translation units)
 #pragma once
+#include <cstring>
 #include "cont.hpp"
 
 #include <memory>
@@ -269,10 +270,12 @@ namespace cs
                     int   at = env.log.calls.back().leaf % 2;
                     al.deallocate(p, 1);
                     log_pos = env.log.calls.size();
-                    if (Flavour == 1 && at != s[i].leaf && at == last_leaf[i])
+                    if (Flavour == 1 && at != s[i].leaf && at == last_leaf[i] && std::strncmp(what, "cpa", 3) == 0)
                     {
-                        // known finding K02 (type-erased allocators always compare equal): the library containers
-                        // skip the propagation between "equal" allocators, the target keeps the one it had
+                        // known finding K02 (type-erased allocators always compare equal): in a copy assignment the
+                        // standard library's containers skip the propagation between "equal" allocators, the target
+                        // keeps the one it had. Only there: swap and move assignment propagate unconditionally, a
+                        // container that keeps its allocator across those is not K02 (seeded change C10-w8-3)
                         stats().hit("reach.any_assignment_kept_its_allocator_K02");
                         s[i].leaf = at;
                     }
